@@ -62,11 +62,12 @@ def edit_listing(rng, text: str):
                 if com and rng.random() < 0.5:
                     com = None
                 else:
-                    com = "# " + rng.choice(["4010 <x+0x1>", "comment, with | bars :: and ,commas", "0x10", "%rax,%rbx"])
+                    com = "# " + rng.choice(["4010 <x+0x1>", "comment, with | bars :: and ,commas", "0x10", "%rax,%rbx", "Disassembly of section .text:",
+                                             "see Disassembly of section .init: above", "file format elf64-x86-64", "0000000000401000 <main>:", "...", "401000:\t90 \tnop"])
             spaces = " " * rng.randint(0, 12) if do("indent") else raw[: len(raw) - len(raw.lstrip(" "))]
             nb = ln.nbytes
             if do("bytes"):
-                nb = rng.randint(1, 7)
+                nb = rng.randint(1, 7) if rng.random() < 0.8 else rng.randint(8, 24)       # wider rows: objdump --insn-width=N
                 col = "".join("%02x " % rng.randrange(256) for _ in range(nb))
                 col = col.ljust(rng.choice([len(col), 21, 21, 24, 30]))
             else:
